@@ -711,13 +711,16 @@ func (p *Parameters) ReadFrom(r io.Reader) (n int64, err error) {
 			return int64(n), fmt.Errorf("buffer.ReadAsUint64[int]: %w", err)
 		}
 
-		bytes := make([]byte, size)
-
-		var inc int
-		if inc, err = io.ReadFull(r, bytes); err != nil {
-			return n + int64(inc), fmt.Errorf("io.Reader.Read: %w", err)
+		// size is not trusted for the allocation: the buffer grows with the data actually read
+		var bytes []byte
+		if bytes, err = io.ReadAll(io.LimitReader(r, int64(size))); err == nil && len(bytes) < size {
+			err = io.ErrUnexpectedEOF
 		}
-		return n + int64(inc), p.UnmarshalJSON(bytes)
+
+		if err != nil {
+			return n + int64(len(bytes)), fmt.Errorf("io.Reader.Read: %w", err)
+		}
+		return n + int64(len(bytes)), p.UnmarshalJSON(bytes)
 
 	default:
 		return p.ReadFrom(bufio.NewReader(r))
